@@ -56,6 +56,8 @@ type Prog struct {
 	declCache map[*types.Func]*ast.FuncDecl
 	allWT     *WriteThrough // write-through facts over all repository functions (built on first use)
 	NormLog   []string      // what the source normalisation inlined (or declined to)
+	nsDone   bool
+	nsWrites []newStateWrite
 }
 
 func loadEnv() []string {
